@@ -165,7 +165,10 @@ def _add_tree(ci, container, v):
     return var
 
 
-def build(spec):
+def build(spec, _pollute=True):
+    if _pollute:
+        # an unrelated object of the same classes is built first: class- or module-level state must not leak into this one
+        build(seed_layered(), _pollute=False)
     import productmd.composeinfo as pc
     ci = pc.ComposeInfo()
     r = spec["release"]
